@@ -87,6 +87,11 @@ OTHER_TEXTS = ["1", "+1", "1_0", "1.5", "x", " 7", "1e5", "nan", "", "abc", "0x1
 
 def field_case(rng, spec, stream=None):
     d = G.descr_of_spec(spec)
+    if stream is None and d is not None and rng.random() < 0.03:
+        # a value that is not text handed to the build() of a typed class (the API allows it): whatever that class
+        # accepts and validates must render to text that denotes it again (untyped MafColumnRecord holds any object
+        # and prints its str(): outside the statement)
+        return {"kind": "field", "cls": spec, "text": "", "raw": G.kind_odd_value(rng, d), "stream": "raw-value"}
     if d is None:
         return {"kind": "field", "cls": spec, "text": rng.choice(OTHER_TEXTS), "stream": stream or "spelling"}
     s = rng.random()
